@@ -2022,7 +2022,8 @@ def iter_values(I_, v, st, ctx, k, node=None, live_ok=False):
   try:
     if isinstance(v, (types.GeneratorType,)):
       raise Unsupported("iteration over a real generator")
-    if not isinstance(v, (list, tuple, dict, set, frozenset)) and not fully_concrete(v):
+    if (not isinstance(v, (list, tuple, dict, set, frozenset)) and not fully_concrete(v)) \
+       or type(v).__module__.startswith("pyvc"):
       # an engine value (heap reference, symbolic bytes ...) that no case above knows how to walk
       raise Unsupported("iteration over engine value %r" % type(v).__name__)
     return k(st, list(v))
